@@ -23,16 +23,16 @@ func (r Result) String() string { return [...]string{"unsat", "sat", "unknown"}[
 
 // Solver is one long-lived solver process spoken to over stdin/stdout.
 type Solver struct {
-	Name    string
-	cmd     *exec.Cmd
-	in      io.WriteCloser
-	out     *bufio.Reader
-	Queries map[Result]int
-	Time    time.Duration
-	Errors  []string
-	Log     io.Writer
-	declared []map[string]bool // per push level
-	timeoutMs int
+	Name        string
+	cmd         *exec.Cmd
+	in          io.WriteCloser
+	out         *bufio.Reader
+	Queries     map[Result]int
+	Time        time.Duration
+	Errors      []string
+	Log         io.Writer
+	declared    []map[string]bool // per push level
+	timeoutMs   int
 	keepAll     bool
 	inRetry     bool
 	Retried     int
